@@ -13,7 +13,7 @@ def gen_timer_seqs(seed, n):
         P = r.choice([1, 1, 2, 2, 3, 4])
         T = r.choice([1, 2, 2, 3, 4, 5])
         pattern = r.choice(["always", "never", "late", "stops", "token", "unsolicited", "pingcmd", "lateok", "lateok_stops",
-                            "lateok_stops"])
+                            "lateok_stops", "silent_busy", "silent_busy"])
         if pattern.startswith("lateok") and r.random() < 0.8:
             # answers that come after the NEXT ping but still within pong_timeout need pong_timeout > ping_timeout
             P = r.choice([1, 1, 2])
@@ -49,6 +49,14 @@ def gen_timer_seqs(seed, n):
                 ops.append("advance %d" % d)
                 t += d
                 ops.append("line 1 " + esc("PONG early"))
+            elif pattern == "silent_busy":
+                # never answers a PING, but keeps the connection busy with other traffic (its own PINGs included):
+                # other traffic is no proof of life
+                d = r.choice([200, 300, 500, 700])
+                ops.append("advance %d" % d)
+                t += d
+                ops.append("line 1 " + esc(r.choice(["PING keep", "PING :x y", "LUSERS", "PING keep", "JOIN #a", "PRIVMSG a :hi",
+                                                     "NOTICE a :n", "MODE a +i", "AWAY :brb", "TIME"])))
             else:
                 d = r.choice([500, 1000, 2500, 4000])
                 ops.append("advance %d" % d)
@@ -145,7 +153,7 @@ def timer_oracle(ops, P, T, events):
 
 def run_timer(tier, seed, log):
     os.makedirs(runner.WORK, exist_ok=True)
-    n = 60 if tier == "quick" else 1500
+    n = 120 if tier == "quick" else 2000
     seqs = gen_timer_seqs(seed, n)
     path = runner.WORK + "/timer-%d.ops" % seed
     runner.write_seq_file(path, [(a, b, c) for a, b, c, _ in seqs])
@@ -194,6 +202,138 @@ def run_timer(tier, seed, log):
            "traces_validated_against_impl": len(seqs)}
     samples = [{"sequence": seqs[0][0], "ops": runner.render_ops(seqs[0][2])[:12]}]
     return {"coverage": cov, "samples": samples, "violations": violations}
+
+
+# --------------------------------------------------------------------------- C17 on the wall clock, real server
+
+def gen_live_scenarios(seed, n):
+    r = random.Random(seed * 17 + 5)
+    fixed = [(1, 1, "always", 0, 0, 50, 3600), (1, 2, "never", 0, 0, 0, 4600), (1, 1, "stops", 1, 0, 100, 4600),
+             (2, 1, "always", 0, 2600, 50, 7200), (1, 1, "always", 0, 1300, 50, 4300), (2, 2, "stops", 1, 300, 100, 7400),
+             (1, 3, "never", 0, 1200, 0, 6500), (1, 1, "always", 0, 700, 400, 3900)]
+    sc = []
+    for i in range(n):
+        if i < len(fixed):
+            P, T, pol, k, pre, ad, dur = fixed[i]
+        else:
+            P, T = r.choice([1, 1, 2]), r.choice([1, 2, 3])
+            pol = r.choice(["always", "never", "stops"])
+            k = r.choice([1, 2, 3])
+            pre = r.choice([0, 0, 300, 1300, 2600, 3400])
+            ad = r.choice([20, 100, 400, 700]) if T * 1000 > 900 else r.choice([20, 100, 400])
+            dur = pre + (k + 2) * P * 1000 + T * 1000 + 1500
+        cfg = ["cfg name irc.test", "cfg ping_timeout %d" % P, "cfg pong_timeout %d" % T]
+        sc.append(("live-%d-%d-P%d-T%d-%s%d-pre%d" % (seed, i, P, T, pol, k, pre), cfg,
+                   ["live %d %s %d %d %d" % (pre, pol, k, ad, dur)], (P, T, pol, k, pre, ad, dur)))
+    return sc
+
+
+def live_oracle(events, closed, final, P, T, pol, k, dur):
+    """the statement of C17 (and the clean-up of C06) on wall-clock observations of the real server; generous
+    scheduling slack (the machine may be busy): a PING may be up to 900 ms late, an ERROR up to 1 s"""
+    reg = [ms for ms, kind, _ in events if kind == "001"]
+    if not reg:
+        return "registration-not-completed"
+    reg = reg[0]
+    pings = [ms for ms, kind, _ in events if kind == "PING"]
+    sent = [ms for ms, kind, _ in events if kind == "SENT"]
+    errs = [ms for ms, kind, _ in events if kind == "ERROR"]
+    end = errs[0] if errs else (closed if closed is not None else dur)
+    # schedule: the first PING one ping_timeout after registration, then one every ping_timeout
+    post = [p for p in pings if p >= reg]
+    if end >= reg + P * 1000 + 1000:
+        if not post or not (reg + P * 1000 - 250 <= post[0] <= reg + P * 1000 + 900):
+            return "first-ping-not-one-ping_timeout-after-registration"
+    for a, b in zip(post, post[1:]):
+        if not (P * 1000 - 400 <= b - a <= P * 1000 + 900):
+            return "ping-interval-wrong"
+    if post and end - post[-1] > P * 1000 + 1000:
+        return "ping-missing"
+    # a client that answers every PING (within pong_timeout) is never dropped
+    def answered(p):
+        return any(p <= q < p + T * 1000 for q in sent)
+    if errs or (closed is not None and pol == "always"):
+        e = errs[0] if errs else closed
+        before = [p for p in pings if p < e]
+        if before and all(answered(p) for p in before):
+            return "live-client-dropped"
+    # a silent client is dropped no later than pong_timeout after the first PING it did not answer
+    un = [p for p in pings if not any(q >= p for q in sent)]
+    if un:
+        p0 = un[0]
+        if dur >= p0 + T * 1000 + 1200:
+            if not errs or errs[0] > p0 + T * 1000 + 1000:
+                return "silent-client-not-dropped"
+            if closed is None:
+                return "dropped-client-not-disconnected"
+            if final != 0:
+                return "dropped-client-still-registered"
+    elif pol == "always" and final != 1:
+        return "live-client-not-registered-at-end"
+    return None
+
+
+def parse_live(text):
+    res = collections.OrderedDict()
+    cur = None
+    for line in text.split("\n"):
+        if line.startswith("seq "):
+            cur = {"events": [], "closed": None, "final": None, "broken": []}
+            res[line[4:]] = cur
+        elif cur is None:
+            continue
+        elif line.startswith("lev "):
+            _, ms, kind, rest = line.split(" ", 3)
+            cur["events"].append((int(ms), kind, unesc(rest)))
+        elif line.startswith("closed "):
+            cur["closed"] = int(line.split(" ")[1])
+        elif line.startswith("final "):
+            cur["final"] = int(line.split(" ")[1])
+        elif line.startswith("ev "):
+            cur["broken"].append(line)
+    return res
+
+
+def run_live(tier, seed, log):
+    os.makedirs(runner.WORK, exist_ok=True)
+    n = 6 if tier == "quick" else 60
+    sc = gen_live_scenarios(seed, n)
+
+    def run(scs, tag):
+        path = runner.WORK + "/live-%d%s.ops" % (seed, tag)
+        runner.write_seq_file(path, [(a, b, c) for a, b, c, _ in scs])
+        ri = runner.sh([runner.HARNESS, "live", path], timeout=600)
+        if ri.returncode != 0:
+            raise runner.BuildError("live mode failed: " + ri.stderr[-800:])
+        return parse_live(ri.stdout)
+    res = run(sc, "")
+    violations, rechecked = [], []
+    n_events = 0
+    seen = set()
+    for name, cfg, ops, (P, T, pol, k, pre, ad, dur) in sc:
+        o = res.get(name)
+        if o is None or o["broken"]:
+            raise runner.BuildError("live scenario did not run: %s %s" % (name, o and o["broken"]))
+        n_events += len(o["events"])
+        v = live_oracle(o["events"], o["closed"], o["final"], P, T, pol, k, dur)
+        if v:
+            # wall-clock observation: counts only if it fails again when run on its own
+            o2 = run([(name, cfg, ops, None)], "-re").get(name)
+            v2 = live_oracle(o2["events"], o2["closed"], o2["final"], P, T, pol, k, dur) if o2 and not o2["broken"] else None
+            rechecked.append({"scenario": name, "first": v, "second": v2})
+            if v2 and ("live:" + v2) not in seen:
+                seen.add("live:" + v2)
+                violations.append(("live:" + v2, {
+                    "what": "keep-alive statement violated on the real server (run_server, wall clock)", "verdict": v2,
+                    "ping_timeout": P, "pong_timeout": T, "client": {"policy": pol, "answers": k, "registers_after_ms": pre,
+                                                                      "answer_delay_ms": ad, "observed_for_ms": dur},
+                    "events": [(ms, kind, l[:80]) for ms, kind, l in o2["events"]][:40], "closed_at": o2["closed"],
+                    "still_registered_at_end": o2["final"], "scenario": name}))
+    cov = {"live_scenarios": len(sc), "live_events": n_events, "live_first_run_failures_rechecked": rechecked,
+           "live_rule": "real run_server + user_state_process on the wall clock, one scripted client per scenario (always / never / stops "
+                        "answering, optional slow registration); PING schedule, ERROR deadline, disconnection and clean-up judged with "
+                        "scheduling slack (PING up to 0.9 s late, ERROR up to 1 s late)"}
+    return {"coverage": cov, "violations": violations}
 
 
 # --------------------------------------------------------------------------- directed scenarios
@@ -822,6 +962,9 @@ def run(pid, tier, seed, log):
     out = {"coverage": {}, "samples": [], "violations": []}
     if pid == "C17":
         out = run_timer(tier, seed, log)
+        o2 = run_live(tier, seed, log)
+        out["coverage"].update(o2["coverage"])
+        out["violations"] += o2["violations"]
     if pid == "C18":
         out = run_conc(tier, seed, log)
         # lock-queue schedules (hook verif_hold_state): deterministic exposure of handlers that are not one
